@@ -62,6 +62,12 @@ impl Wake for InnerWaker {
     }
 }
 
+thread_local! {
+    /// called right before a granted task is polled (after the executor processed whatever was
+    /// pending, e.g. the drop of an aborted task)
+    pub static PRE_POLL: std::cell::RefCell<Option<Box<dyn FnMut(u64, u64)>>> = const { std::cell::RefCell::new(None) };
+}
+
 pub struct GateHandle(pub Arc<Gate>);
 
 impl TaskGate for GateHandle {
@@ -83,6 +89,22 @@ impl TaskGate for GateHandle {
     }
 
     fn permit(&self, id: u64, waker: &Waker) -> bool {
+        let (pre, step) = {
+            let g = self.0.inner.lock().unwrap();
+            (g.granted == Some(id), g.step)
+        };
+        if pre {
+            // take the hook out while it runs (it may log, sample statuses, ...)
+            let hook = PRE_POLL.with(|h| h.borrow_mut().take());
+            if let Some(mut f) = hook {
+                f(step, id);
+                PRE_POLL.with(|h| {
+                    if h.borrow().is_none() {
+                        *h.borrow_mut() = Some(f);
+                    }
+                });
+            }
+        }
         let mut g = self.0.inner.lock().unwrap();
         let granted = g.granted == Some(id);
         if granted {
